@@ -160,6 +160,9 @@ package fosite
 //@ ghost tx_rolledback : int
 //@ ghost tx_commit_calls   : int          // attempts, successful or not
 //@ ghost tx_rollback_calls : int
+//@ ghost tx_ctx     : V                  // the context returned by the last successful BeginTX
+//@ ghost tx_escaped : int                // storage writes performed while a transaction is open, but with another context
+//@ spec func escapes(ctx context.Context, err error) int = (tx_open > 0 && ctx != tx_ctx && err == nil) ? 1 : 0
 //@ ghost snap_code_active : map[string]bool
 //@ ghost snap_acc_exists  : map[string]bool
 //@ ghost snap_ref_exists  : map[string]bool
